@@ -498,6 +498,21 @@ theorem run_reread {isOther : Char → Bool} {content : List Char} {runs : List 
   cases ht'
   exact ⟨gens, hg, hr⟩
 
+/-- … and the configuration texts of its scrut blocks are those `update` wrote (`writtenCfg`) -/
+theorem run_reread_cfg {isOther : Char → Bool} {content : List Char} {runs : List Ran}
+    {text : List Char} {results : List Gen.UpdResult}
+    (h : updateDocument isOther content runs = .updated text results)
+    (hcr : NoStrayCR content) (hf : FrontClosed content) :
+    ∃ gens, docGens isOther content runs = some gens ∧ Reread gens 0 (docToks content) (docToks text) ∧
+      cfgTexts (docToks text) = (cfgsOf (docToks content)).map writtenCfg := by
+  obtain ⟨gens, hg, hne, _, hok, hu, _⟩ := updateDocument_updated h
+  have hgk : ∀ (k : Nat) (g : List Char), gens[k]? = some (some g) → GenOK g := by
+    intro k g hk
+    obtain ⟨g', h1, h2⟩ := hok k _ hk
+    cases h1; exact h2
+  obtain ⟨hr, hc⟩ := generateUpdate_reread_cfg _ language_langOK gens hne hgk content text hcr hf hu
+  exact ⟨gens, hg, hr, hc⟩
+
 /-- `generate_update` applied to the written document with the same texts changes nothing -/
 theorem run_generateUpdate_fixed {isOther : Char → Bool} {content : List Char} {runs : List Ran}
     {text : List Char} {results : List Gen.UpdResult}
@@ -959,6 +974,24 @@ theorem reread_blocks {gens : List (Option (List Char))} {k : Nat} {toks toks' :
     refine ⟨?_, by simpa [frontTexts] using ih.2⟩
     simp only [testBlocks, h1, h2, Bool.false_eq_true, if_false]
     exact .cons k _ _ _ _ g hg hcd' hc ih.1
+
+/-- the configuration texts of the test blocks (those with code) of the written document -/
+theorem reread_blocks_cfg {gens : List (Option (List Char))} {k : Nat} {toks toks' : List Tok}
+    (h : Reread gens k toks toks') (hc : cfgTexts toks' = (cfgsOf toks).map writtenCfg) :
+    (testBlocks toks').map (fun b => b.1.map (·.2)) = (testBlocks toks).map (fun b => writtenCfg b.1) := by
+  induction h with
+  | nil k => rfl
+  | line k i i' l r r' _ ih => simpa only [testBlocks] using ih (by simpa only [cfgTexts, cfgsOf] using hc)
+  | front k ls ls' r r' hl _ ih => simpa only [testBlocks] using ih (by simpa only [cfgTexts, cfgsOf] using hc)
+  | verbatim k s s' lang ls r r' _ ih => simpa only [testBlocks] using ih (by simpa only [cfgTexts, cfgsOf] using hc)
+  | testNoCode k lang cfg cfg' cm cm' r r' _ _ _ ih =>
+    simp only [cfgTexts, cfgsOf, List.map_cons, List.cons.injEq] at hc
+    simpa only [testBlocks, List.isEmpty_nil, if_true] using ih hc.2
+  | testCode k lang cfg cfg' cm cm' cd cd' g r r' hcd hg _ _ hcd' hne' _ ih =>
+    have h1 : cd.isEmpty = false := by simpa using hcd
+    have h2 : cd'.isEmpty = false := by simpa using hne'
+    simp only [cfgTexts, cfgsOf, List.map_cons, List.cons.injEq] at hc
+    simp only [testBlocks, h1, h2, Bool.false_eq_true, if_false, List.map_cons, hc.1, ih hc.2]
 
 theorem BlocksReread.length_eq {gens : List (Option (List Char))} :
     ∀ {k : Nat} {bs bs' : List (Numbered × List Markdown.Line)}, BlocksReread gens k bs bs' → bs'.length = bs.length
